@@ -251,7 +251,9 @@ func (r *Reader) initFields() error {
 			r.m[ent.Name] = ent
 		}
 		if ent.Type == "reg" && ent.ChunkSize > 0 && ent.ChunkSize < ent.Size {
-			r.chunks[ent.Name] = make([]*TOCEntry, 0, ent.Size/ent.ChunkSize+1)
+			// The capacity is only a hint. Don't let it exceed the number of the entries
+			// because Size and ChunkSize come from the (possibly untrusted) TOC.
+			r.chunks[ent.Name] = make([]*TOCEntry, 0, min(ent.Size/ent.ChunkSize+1, int64(len(r.toc.Entries))))
 			r.chunks[ent.Name] = append(r.chunks[ent.Name], ent)
 		}
 		if ent.ChunkSize == 0 && ent.Size != 0 {
